@@ -9,6 +9,9 @@ def run(res):
     # three listeners: the killer runs before / between / after its victims, all orders
     c, ov = dc.consts(H=3, subs='Subs_Fixed', beh='Beh_C10_H1', maxq=1, maxeid=2 if thorough else 1, clear=False)
     dc.check_and_replay(res, 'c10_h3', c, ov, depth_all=0, walks=2000)
+    # a handler whose event mapping is empty is a registered handler like any other: removed when asked, forgotten when dropped
+    c, ov = dc.consts(H=2, subs='Subs_OneSilent', beh='Beh_C10', maxq=1, maxeid=2, clear=False)
+    dc.check_and_replay(res, 'c10_silent', c, ov, depth_all=3, walks=500)
     dc.trace_validate(res, 1000 if thorough else 100, 50)
     # ... and therefore a World: a probe listener deletes, from inside its callback, another entity whose components
     # listen to the same event; the world held the only strong reference to them (weak harness)
